@@ -81,8 +81,10 @@ def tlc_trace(spec, trace, work, timeout=900):
     """Run a trace specification over a recorded trace; returns (verdict dict, generated, distinct)."""
     meta = os.path.join(work, "meta_" + spec + "_" + hashlib.md5(trace.encode()).hexdigest()[:8])
     cmd = ["tlc", "-workers", "1", "-metadir", meta, "-cleanup", "-noGenerateSpecTE", "-config", spec + ".cfg", spec + ".tla"]
-    p = sh(cmd, cwd=SPEC, env=tlc_env({"TRACE": trace}), timeout=timeout, check=False)
-    shutil.rmtree(meta, ignore_errors=True)
+    try:
+        p = sh(cmd, cwd=SPEC, env=tlc_env({"TRACE": trace}), timeout=timeout, check=False)
+    finally:
+        shutil.rmtree(meta, ignore_errors=True)
     out = p.stdout
     m = re.search(r'<<"VERDICT", "(.*)">>', out)
     if not m or "Model checking completed. No error has been found." not in out:
@@ -98,8 +100,11 @@ def tlc_model(spec, cfg, work, workers=8, timeout=900, extra_args=None, env=None
     cmd = ["tlc", "-workers", str(workers), "-metadir", meta, "-cleanup", "-noGenerateSpecTE", "-config", cfg, spec + ".tla"]
     if extra_args:
         cmd += extra_args
-    p = sh(cmd, cwd=SPEC, env=tlc_env(env), timeout=timeout, check=False)
-    shutil.rmtree(meta, ignore_errors=True)
+    try:
+        p = sh(cmd, cwd=SPEC, env=tlc_env(env), timeout=timeout, check=False)
+    finally:
+        # a TLC that is stopped by the time limit leaves its state queue on disk (tens of GB)
+        shutil.rmtree(meta, ignore_errors=True)
     out = p.stdout
     g, d = parse_tlc_counts(out)
     ok = "Model checking completed. No error has been found." in out or "Finished in" in out and "Error:" not in out
@@ -331,8 +336,10 @@ def engine_sim(prop, tier, seed, work):
         meta = os.path.join(work, "simmeta_" + name)
         cmd = ["tlc", "-workers", "4", "-simulate", "num=%d" % n, "-depth", "250", "-seed", str(seed), "-metadir", meta,
                "-cleanup", "-noGenerateSpecTE", "-config", cfg, "MCLoopCore.tla"]
-        p = sh(cmd, cwd=SPEC, env=tlc_env(), timeout=600, check=False)
-        shutil.rmtree(meta, ignore_errors=True)
+        try:
+            p = sh(cmd, cwd=SPEC, env=tlc_env(), timeout=600, check=False)
+        finally:
+            shutil.rmtree(meta, ignore_errors=True)
         if "Error:" in p.stdout and "is violated" in p.stdout:
             cex = "%s/replays/%s_sim_%s.txt" % (ROOT, prop, name)
             os.makedirs(ROOT + "/replays", exist_ok=True)
@@ -504,8 +511,10 @@ def model_schedules(kind, prop, tier, seed, work, res):
         else:
             cmd = ["tlc", "-workers", "4", "-simulate", "num=%d" % n, "-depth", "400", "-seed", str(seed), "-metadir", meta,
                    "-cleanup", "-noGenerateSpecTE", "-config", "mc/%s.cfg" % cfg, mod + ".tla"]
-        p = sh(cmd, cwd=SPEC, env=tlc_env(), timeout=900, check=False)
-        shutil.rmtree(meta, ignore_errors=True)
+        try:
+            p = sh(cmd, cwd=SPEC, env=tlc_env(), timeout=900, check=False)
+        finally:
+            shutil.rmtree(meta, ignore_errors=True)
         if "is violated" in p.stdout:
             cex = "%s/replays/%s_sim_%s.txt" % (ROOT, prop, cfg)
             os.makedirs(ROOT + "/replays", exist_ok=True)
